@@ -430,7 +430,7 @@ def replay_index_routing(diffs):
 
 
 # ---------------------------------------------------------------- C20 (suffix comparison)
-def replay_string_suffix_compare(viol):
+def replay_string_suffix_compare(viol, prop="C20"):
     """suffixes of a string (unaligned starts) compared / unified with strings and with the
     lists they denote; expected orders computed on the Python strings"""
     base = "abcdefghijklmnopqrstuvwx"
@@ -450,7 +450,14 @@ def replay_string_suffix_compare(viol):
                               order(other, suf)))
             lst = "[" + ",".join(suf) + "]"
             cases.append(('X = "%s", X = [%s|T], ( T == %s -> write(yes) ; write(no) ), nl' % (s, skip, lst), "yes"))
-    return run_cases("", cases, {"model": viol}, "C20", "string_suffix_compare")
+    # first difference at characters of every encoded length (1..4 bytes), at several offsets
+    chars = ["z", "\u00e9", "\u20ac", "\U0001F600", "\U0001F601", "a"]
+    for pre in ("", "x", "xy", "xyzw", "xyzwvut"):
+        for c1 in chars:
+            for c2 in chars:
+                a, b = pre + c1 + "q", pre + c2 + "q"
+                cases.append(('compare(O, "%s", "%s"), write(O), nl' % (a, b), order(a, b)))
+    return run_cases("", cases, {"model": viol}, prop, "string_suffix_compare", batch=True)
 
 
 # ---------------------------------------------------------------- C04/C05 (Number comparison arms)
@@ -535,3 +542,25 @@ def replay_term_order(viol):
         cases.append(("X = %s, Y = %s, compare(O, X, Y), write(O), nl" % (a, b), w))
     prog = (":- use_module(library(iso_ext)).\nexplode([], []).\nexplode([C|Cs], [C|Ds]) :- explode(Cs, Ds).\n")
     return run_cases(prog, cases, {"model": viol}, "C13", "term_order", batch=True)
+
+
+# ---------------------------------------------------------------- C13/C21 (atom order)
+def replay_atom_order(viol, prop="C13"):
+    """atoms of every storage class (inline 1..6 bytes, interned, predefined; ASCII and multi-byte)
+    compared pairwise: the order must be the order of their code-point sequences (= UTF-8 bytes)"""
+    atoms = ["a", "z", "é", "ézzzzzzzz", "zzzzzzzzz", "ab", "abc", "b", "aé", "€",
+             "\U0001F600", "a€", "append", "zz", "é€", "abcdefg", "abcdef", "ÿ", "yÿ"]
+
+    def order(a, b):
+        a, b = a.encode("utf-8"), b.encode("utf-8")
+        return "<" if a < b else (">" if a > b else "=")
+    cases = []
+    for x in atoms:
+        for y in atoms:
+            cases.append(("compare(O, '%s', '%s'), write(O), nl" % (x, y), order(x, y)))
+    # the same through functor names and through run-time construction
+    for x, y in (("é", "z"), ("z", "é"), ("aé", "az"), ("€", "ézzzzzzzz")):
+        cases.append(("X = '%s'(1), Y = '%s'(1), compare(O, X, Y), write(O), nl" % (x, y), order(x, y)))
+        cases.append(("atom_chars(X, \"%s\"), atom_concat('', '%s', Y), compare(O, X, Y), write(O), nl" % (x, y),
+                      order(x, y)))
+    return run_cases("", cases, {"model": viol}, prop, "atom_order", batch=True)
